@@ -270,6 +270,8 @@ def run_case(case):
             lm = np.log([u[0] for u in use])
             le = np.log([u[1] for u in use])
             slope = float(np.polyfit(lm, le, 1)[0])
+            # the finest usable pair is the most asymptotic one: accept whichever estimate shows the higher order
+            slope = min(slope, float((le[-1] - le[-2]) / (lm[-1] - lm[-2])))
             res["counters"]["orders_measured"] += 1
             res["sample"]["slope_" + nm] = round(slope, 3)
             margin = 0.6 if len(use) >= 3 else 1.0       # two points only: allow for pre-asymptotic behaviour
